@@ -1744,3 +1744,34 @@ def rule_subs_agree(ctx):
                   "column count and the tokens read disagree for run-on values, cells are displaced without an error when the totals "
                   "happen to divide" % earg.id, pth)
     ctx.floor("DATA.SUBS-AGREE", 1)
+
+
+def rule_engine_args_agree(ctx):
+    """DATA.ENGINE-ARGS (sibling call sites): LASFile.read calls the reference engine from more than one place (directly, and as
+    the fall-back when the fast engine refuses the section).  Every call site hands it the same arguments - an option that reaches
+    one call site only (a keyword dropped from the fall-back after a signature change) makes the result depend on which engine
+    happened to read the section."""
+    p = ctx.p
+    r = get_resolver(p)
+    fr = host_data(p)
+    calls = [c for c in walk_shallow(fr.node) if isinstance(c, ast.Call) and any(t.qual == NORMAL for t in r.callees(fr, c)[0])]
+    site = READ + "#reference-engine-call-sites"
+    if len(calls) < 2:
+        ctx.undecided("DATA.ENGINE-ARGS", site, fr, fr.node, "%d call site(s) of the reference engine in %s" % (len(calls), fr.qual))
+        return
+    def shape(c):
+        return (tuple(ast.unparse(a) for a in c.args), tuple(sorted((k.arg or "**", ast.unparse(k.value)) for k in c.keywords)))
+    shapes = {}
+    for c in calls:
+        shapes.setdefault(shape(c), []).append(c)
+    if len(shapes) == 1:
+        ctx.ok("DATA.ENGINE-ARGS", site, fr, calls[0], "all %d call sites of the reference engine pass the same arguments" % len(calls))
+    else:
+        keys = list(shapes)
+        kw = [dict(k[1]) for k in keys]
+        diff = sorted(set().union(*[set(d.items()) for d in kw]) - set.intersection(*[set(d.items()) for d in kw]))
+        pos = [k[0] for k in keys]
+        ctx.bad("DATA.ENGINE-ARGS", site, fr, shapes[keys[1]][0], "the call sites of the reference engine disagree (%s): a section read through "
+                "the fall-back path is treated differently from one read by the reference engine directly" % (
+                    ", ".join("%s=%s" % d for d in diff) or "positional %s" % (pos,)))
+    ctx.floor("DATA.ENGINE-ARGS", 1)
